@@ -163,7 +163,9 @@ def refreshOp (s : St) (rows : String) : St × String :=
   | loc :: peers =>
     let s1 := regRows { s with prevIds := s.v.ring.ids, prevObjs := s.v.ring.allHosts, specRep := getHostsSpec loc peers s.nextObj } (loc :: peers)
     match getHosts loc peers s.nextObj with
-    | none => (s1, "crash:no-address")
+    -- a row without any address: hostInfoFromMap returns an error (repair of KF-C05-25; HostInfo.ConnectAddress
+    -- panicked before), GetHosts fails and the refresh changes nothing
+    | none => answer s1 s1.v "err:gethosts "
     | some hs => answer s1 (s1.v.refresh s1.env hs) "ok "
 
 /-- ops (every answer ends with the canonical snapshot and `rr=` = a ring refresh was requested by the op)
@@ -238,7 +240,7 @@ def step (s : St) (ws : List String) : St × String :=
       -- setupConn: the control host, built with connectAddress = the dialled address, goes into the ring
       let s1 := regRows { s0 with ctl := nat ctl } [loc]
       match loc.host s0.nextObj (nat ctl) with
-      | none => (s1, "crash:no-address")
+      | none => (s1, "err:setup")          -- hostInfoFromMap returns an error (repair of KF-C05-25): NewSession fails
       | some l0 =>
         let env1 := s1.env
         let (r, e) := View.empty.ring.addOrUpdate l0
@@ -246,7 +248,7 @@ def step (s : St) (ws : List String) : St × String :=
         -- init: GetHosts, then every accepted host is added
         let s2 := regRows s1 (loc :: peers)
         match getHosts loc peers s1.nextObj with
-        | none => (s2, "crash:no-address")
+        | none => (s2, "err:setup")        -- a row without any address: GetHosts fails, NewSession fails
         | some hs =>
           let env2 := s2.env
           let v := hs.foldl (fun v h => if env2.filter h then v else v.addInitial env2 h) { View.empty with ring := r }
@@ -286,7 +288,8 @@ def step (s : St) (ws : List String) : St × String :=
     | loc :: peers =>
       let s1 := regRows { s0 with v := v1, prevIds := v1.ring.ids, prevObjs := v1.ring.allHosts, specRep := getHostsSpec loc peers s0.nextObj } (loc :: peers)
       match getHosts loc peers s0.nextObj with
-      | none => (s1, "crash:no-address")
+      -- a row without any address: the refresh fails (logged) and changes nothing (not driven by the e2e generators)
+      | none => (s1, "refreshed=1 " ++ snapshotE s1.v)
       | some hs =>
         let v2 := s1.v.refresh s1.env hs
         let v3 := connectAll s1.env v2
@@ -304,13 +307,15 @@ def step (s : St) (ws : List String) : St × String :=
     | loc :: peers =>
       let s1 := regRows s [loc]
       match loc.host s.nextObj s.ctl with
-      | none => (s1, "crash:no-address")
+      | none => (s1, "err:no-control-connection")   -- setupConn fails (not driven: the dialled address is always set)
       | some l0 =>
         let (s2, v1, e) := addOrUpdateU s1 l0
         let v2 := if s2.env.filter e then v1 else v1.startPoolFill s2.env e
         let s3 := regRows { s2 with v := v2, prevIds := v2.ring.ids, prevObjs := v2.ring.allHosts, specRep := getHostsSpec loc peers s2.nextObj } (loc :: peers)
         match getHosts loc peers s2.nextObj with
-        | none => (s3, "crash:no-address")
+        | none =>                           -- the refresh after the reconnect fails and changes nothing (not driven)
+          let v4 := connectAll s3.env s3.v
+          ({ s3 with v := v4 }, "refreshed=1 " ++ snapshotE v4)
         | some hs =>
           let v3 := s3.v.refresh s3.env hs
           let v4 := connectAll s3.env v3
